@@ -343,6 +343,20 @@ func (rw *rewriter) run() {
 				}
 			}
 
+		case *ast.AssignStmt:
+			// a call of a function value (callback: worker function, WithSafe's fn) followed by a
+			// scheduling point: what the callback's result was stored into can be touched by
+			// other goroutines before the caller reads it
+			if len(n.Rhs) == 1 && c.Index() >= 0 && rw.isFuncValueCall(n.Rhs[0]) {
+				rw.usesRT = true
+				c.InsertAfter(&ast.ExprStmt{X: rw.rtCall("Yield")})
+			}
+		case *ast.ExprStmt:
+			if c.Index() >= 0 && rw.isFuncValueCall(n.X) {
+				rw.usesRT = true
+				c.InsertAfter(&ast.ExprStmt{X: rw.rtCall("Yield")})
+			}
+
 		case *ast.SendStmt:
 			site := addSite(rw.fn(), "chan", rw.text(n.Chan), "send", rw.rel)
 			c.Replace(&ast.ExprStmt{X: rw.rtCall("Send", intLit(site), n.Chan, n.Value)})
@@ -385,6 +399,31 @@ func (rw *rewriter) run() {
 	if !usesPkgName(rw.file, "time") {
 		astutil.DeleteImport(fset, rw.file, "time")
 	}
+}
+
+// isFuncValueCall: e is a call whose callee is a variable or parameter of function type
+func (rw *rewriter) isFuncValueCall(e ast.Expr) bool {
+	call, ok := e.(*ast.CallExpr)
+	if !ok {
+		return false
+	}
+	if sel, ok := call.Fun.(*ast.SelectorExpr); ok {
+		if s := rw.pkg.TypesInfo.Selections[sel]; s != nil && s.Kind() == types.FieldVal {
+			_, isSig := s.Type().Underlying().(*types.Signature)
+			return isSig
+		}
+		return false
+	}
+	id, ok := call.Fun.(*ast.Ident)
+	if !ok {
+		return false
+	}
+	v, ok := rw.pkg.TypesInfo.Uses[id].(*types.Var)
+	if !ok {
+		return false
+	}
+	_, isSig := v.Type().Underlying().(*types.Signature)
+	return isSig
 }
 
 func usesPkgName(f *ast.File, name string) bool {
